@@ -19,7 +19,7 @@ from ..model import render_document, render_sdl, render_json
 
 RULE = ("a directory tree with the same schema under two paths, different schemas with the same base name (also one level up, reached "
         "through relative `../` paths from the drivers' working directory), documents whose first fragment is recursive in one and "
-        "plain in the other, SDL and JSON, a missing "
+        "plain in the other, documents nested 26-40 levels deep (every third stampede runs only those), SDL and JSON, a missing "
         "path, an unparsable SDL and JSON schema, an unparsable query, a query that fails validation; a pool of ~30 distinct calls "
         "(schema path x query path | query string x 3 option sets). Reference = every distinct call alone in a fresh process. "
         "Histories: random sequences of 20-200 calls in one process with failing calls interleaved; stampedes of 2..16 threads "
@@ -75,6 +75,11 @@ def build_tree(root, rng):
     files["fix/rec.graphql"] = "query R { a { ...F } }\nfragment F on A { id a { ...F } }\n"
     files["fix/plain.graphql"] = "query P { a { ...F } }\nfragment F on A { id name }\n"
     files["fix/rec2.graphql"] = "query R2 { a { ...G ...F } }\nfragment G on A { name }\nfragment F on A { as { ...F } }\n"
+    # deeply nested documents (26-40 levels): whatever a call keeps per level must be the call's own, also when many threads
+    # are that deep at the same time
+    files["fix/deep1.graphql"] = "query D1 { a " + "{ a " * 25 + "{ id }" + " }" * 25 + " }\n"
+    files["fix/deep2.graphql"] = "query D2 { a " + "{ as " * 30 + "{ id name }" + " }" * 30 + " }\n"
+    files["fix/deep3.graphql"] = "query D3 { u { __typename ... on A " + "{ a " * 38 + "{ id }" + " }" * 38 + " } }\n"
     # the same file names one directory level up / down: reached through relative paths from the working directory a/
     files["schema.graphql"] = files["b/schema.graphql"]
     files["q.graphql"] = files["b/q.graphql"]
@@ -116,6 +121,11 @@ def build_tree(root, rng):
     call("a/schema.graphql", text="query Q { zz }")
     call("a/schema.graphql", text="query Q { ")
     call("c/missing.graphql", text=files["a/q.graphql"])
+    for dn in ("deep1", "deep2", "deep3"):
+        call("fix/schema.graphql", "fix/%s.graphql" % dn)
+        calls[-1]["deep"] = True
+    call("fix/schema.graphql", text=files["fix/deep1.graphql"])
+    calls[-1]["deep"] = True
     call("fix/schema.graphql", "fix/rec.graphql")
     call("fix/schema.graphql", "fix/plain.graphql")
     call("fix/schema.graphql", "fix/rec2.graphql")
@@ -329,6 +339,8 @@ def main(run):
         r = run.sub_rng("s%d" % si)
         nt = r.choice([2, 3, 4, 8, 16])
         hot = r.sample(calls, 4)
+        if si % 3 == 1:
+            hot = [c for c in calls if c.get("deep")]      # every third stampede: all threads in deeply nested documents at once
         threads, sleeps = [], []
         for t in range(nt):
             k = r.randint(3, 8)
